@@ -540,3 +540,124 @@ Proof.
   - exists o. repeat split; auto.
 Qed.
 End Stale3.
+
+(* ------------------------------------------------------------------ hypotheses (decidable) *)
+(* regular files have proper names (no trailing slash); stale layerconfig.tmp files are allowed *)
+Definition files_ok2 (f : fsT) : bool :=
+  forallb (fun en => match snd en with File _ => ends_ok (fst en) | _ => true end) f.
+(* nothing strictly below <layers>/<n>/layerconfig.tmp *)
+Definition ubelow (c : cfgT) (f : fsT) (n : bytes) : bool :=
+  forallb (fun en => negb (under (TC c n) (fst en))) f.
+Definition tmp_ok (c : cfgT) (f : fsT) (cmd : command) : bool :=
+  match cmd with
+  | CRebase a _ => ubelow c f a
+  | CAdd n _ _ => ubelow c f n
+  | CRename a b0 =>
+    forallb (ubelow c f) (children f (c_layers c)) && ubelow c f b0
+    && forallb (fun en => negb (at_or_under (layer_path c b0) (fst en))) f      (* the new name is free on disk *)
+  | _ => true
+  end.
+Definition wf_world2 (c : cfgT) (f : fsT) (cmd : command) : bool :=
+  wf_cfg c && files_ok2 f && lc_regular c f && cmd_ok c f cmd && nodup_paths (map fst f) && tmp_ok c f cmd.
+
+Lemma files_ok2_J c f cmd : files_ok2 f = true -> C11P.J c f cmd false f.
+Proof.
+  intros H q y Hq. unfold files_ok2 in H. rewrite forallb_forall in H. specialize (H _ Hq). cbn [fst snd] in H.
+  split; [exact H|]. split; [discriminate|]. intros Hb. apply good_old. eapply in_olds; eauto.
+Qed.
+Lemma ubelow_spec c f n : ubelow c f n = true -> forall en, In en f -> under (TC c n) (fst en) = false.
+Proof. intros H en Hen. unfold ubelow in H. rewrite forallb_forall in H. apply H in Hen. now apply negb_true_iff in Hen. Qed.
+
+Section Stale4.
+Variable c : cfgT.
+Variable f0 : fsT.
+Variable cmd : command.
+Variable e : env.
+Hypothesis Hcfg : wf_cfg c = true.
+Hypothesis Hreal : e_pretend e = false.
+Local Notation J := (C11P.J c f0 cmd false).
+Local Notation Sf := (C11P.Sf c f0 cmd).
+
+Lemma run_command_S um : J f0 -> NoDup (map fst f0) -> Forall (Lok c f0) (read_layer_files c f0) ->
+  cmd_ok c f0 cmd = true -> tmp_ok c f0 cmd = true ->
+  hoare (fun g => g = f0) (run_command e c um cmd) (fun _ => J) Sf.
+Proof.
+  intros HJ0 ND0 HL Hok Htmp.
+  cut (forall cm, cm = cmd -> hoare (fun g => g = f0) (run_command e c um cm) (fun _ => J) Sf); [intros H; now apply H|].
+  intros cm Ecm.
+  assert (P0J : forall g, g = f0 -> J g) by (intros g ->; exact HJ0).
+  assert (P0S : forall g, g = f0 -> Sf g) by (intros g ->; now apply (J_Sf c f0 cmd false)).
+  assert (Gen : forall (body : ldefs -> M ldefs),
+    (forall ld, ML c f0 ld ->
+       (forall k, In k (ld_map ld) -> plain (l_name k) /\ In (l_name k) (children f0 (c_layers c))) ->
+       hoare (fun g => g = f0) (body ld) (fun _ => J) Sf) ->
+    hoare (fun g => g = f0)
+      (f <- get_fs ;; guard (base_set_up c f) ;;; ld <- get_layers c um ;; ld' <- body ld ;; ret (Some ld'))
+      (fun _ => J) Sf).
+  { intros body Hbody. apply h_get_fs_eq. apply h_guard_then; [exact P0S|]. intros _.
+    eapply h_bind; [eapply h_conseq; [apply (get_layers_spec c um f0)| | |]|].
+    - auto.
+    - intros ld g Hq. exact Hq.
+    - exact P0S.
+    - intros ld. cbn beta. apply h_pure. intros Est.
+      assert (HML : ML c f0 ld) by (eapply Forall_Lok_static; eauto).
+      assert (HN : forall k, In k (ld_map ld) -> plain (l_name k) /\ In (l_name k) (children f0 (c_layers c))).
+      { intros k Hk. destruct (in_map_static _ _ k Est Hk) as (x & Hx & Hst). rewrite (static_name _ _ Hst).
+        destruct (loaded_named c f0 x Hx) as (Hch & Hlg & _). split; [|exact Hch].
+        apply legal_plain; [exact Hlg|]. apply children_in in Hch as (q & nd & _ & _ & _ & <-). apply pathbase_nonempty. }
+      eapply h_bind; [apply (Hbody ld HML HN)|]. intros ld'. apply (p_ret J Sf). }
+  assert (PJ : forall A (m : M A), pres J Sf m -> hoare (fun g => g = f0) m (fun _ => J) Sf).
+  { intros A m Hm. eapply h_pre; [exact Hm|exact P0J]. }
+  destruct cm; unfold run_command.
+  - apply PJ. apply (p_bind J Sf); [apply p_init_base|intros u; apply (p_ret J Sf)].
+  - apply Gen. intros ld HML HN. apply s_add; auto.
+    split; [exact HJ0|split; [exact ND0|]]. rewrite <- Ecm in Htmp. cbn [tmp_ok] in Htmp.
+    intros n [<-|[]] en Hen. now apply (ubelow_spec c f0 name).
+  - apply Gen. intros ld HML HN. apply PJ. now apply p_remove.
+  - apply Gen. intros ld HML HN. rewrite <- Ecm in Htmp, Hok. cbn [tmp_ok cmd_ok] in Htmp, Hok.
+    apply andb_true_iff in Htmp as [Htmp H4]. apply andb_true_iff in Htmp as [H5a H5b].
+    apply s_rename; auto.
+    + apply negb_true_iff in Hok. now apply beq_false in Hok.
+    + intros nn en [Hnn| ->] Hen.
+      * rewrite forallb_forall in H5a. now apply (ubelow_spec c f0 nn (H5a nn Hnn)).
+      * now apply (ubelow_spec c f0 b0).
+    + intros en Hen. rewrite forallb_forall in H4. apply H4 in Hen. now apply negb_true_iff in Hen.
+  - apply Gen. intros ld HML HN. eapply h_pre; [apply s_rebase; auto|].
+    intros g ->. split; [exact HJ0|split; [exact ND0|]]. rewrite <- Ecm in Htmp. cbn [tmp_ok] in Htmp.
+    intros n [<-|[]] en Hen. now apply (ubelow_spec c f0 a).
+  - apply Gen. intros ld HML HN. apply PJ. apply p_makedirs.
+  - apply Gen. intros ld HML HN. apply PJ. apply p_mount_layer.
+  - apply Gen. intros ld HML HN. apply PJ. apply p_unmount.
+  - apply Gen. intros ld HML HN. apply PJ. apply p_shake.
+  - apply Gen. intros ld HML HN. apply PJ. apply p_chroot.
+  - apply Gen. intros ld HML HN. apply PJ. apply (p_ret J Sf).
+  - apply PJ. apply (p_bind J Sf); [now apply p_apply_op|intros u; apply (p_ret J Sf)].
+  - apply PJ. apply (p_bind J Sf); [now apply p_apply_op|intros u; apply (p_ret J Sf)].
+Qed.
+End Stale4.
+
+(* every layerconfig below the layers directory is a complete version after any prefix of any
+   command's operations, also from a world with stale temporaries left by earlier crashes *)
+Theorem crash_atomic_stale c w e cmd um : e_pretend e = false -> wf_world2 c (wo_fs w) cmd = true ->
+  conj1 c w (view_of_model c w e cmd um) = true.
+Proof.
+  intros Hp Hwf. unfold wf_world2 in Hwf. set (f0 := wo_fs w) in *.
+  apply andb_true_iff in Hwf as [Hwf H6]. apply andb_true_iff in Hwf as [Hwf H5]. apply andb_true_iff in Hwf as [Hwf H4].
+  apply andb_true_iff in Hwf as [Hwf H3]. apply andb_true_iff in Hwf as [H1 H2].
+  pose proof (files_ok2_J c f0 cmd H2) as HJ0. pose proof (loaded_Lok c f0 H3) as HL.
+  apply nodup_paths_NoDup in H5.
+  pose proof (run_command_S c f0 cmd e H1 Hp um HJ0 H5 HL H4 H6 (MkSt (world_of w) 0 []) eq_refl) as HR.
+  destruct (view_of_model_fields c w e cmd um) as (E1 & _ & E3 & _).
+  unfold conj1. rewrite E1, E3. unfold run. fold f0.
+  assert (HS : C11P.Sf c f0 cmd (fs_of (snd (run_command e c um cmd (MkSt (world_of w) 0 []))))).
+  { destruct (run_command e c um cmd (MkSt (world_of w) 0 [])) as [[a| | | |] st]; cbn [snd]; try exact HR.
+    now apply (J_Sf c f0 cmd false). }
+  apply forallb_forall. intros [q n] Hq. cbn [fst snd]. destruct n as [|x|t]; try reflexivity.
+  destruct (beq (pathbase q) D_LayerconfigFile) eqn:Eb; [|reflexivity]. apply beq_true in Eb.
+  destruct (under (c_layers c) q); [|reflexivity]. cbn [andb].
+  apply (HS q x Hq Eb).
+Qed.
+
+Theorem crash_atomic_stale_crash c w e cmd um k : e_fault e = CrashAt k -> e_pretend e = false ->
+  wf_world2 c (wo_fs w) cmd = true -> conj1 c w (view_of_model c w e cmd um) = true.
+Proof. intros _. apply crash_atomic_stale. Qed.
